@@ -179,7 +179,21 @@ func VF_C14_Constructors(n, form int) {
 		checkMap("make-empty", kit, cls.Make(), &omodel[int]{})
 		// a sequence of associations from another map
 		src, sm := c14Setup(kit, n)
-		checkMap("from-map-sequence", kit, cls.MakeFromSequence(src), sm)
+		built := cls.MakeFromSequence(src)
+		checkMap("from-map-sequence", kit, built, sm)
+		// the new map is a map of its own: later updates of either side do not reach the other
+		nk, nv := 4242, 7
+		for _, o := range sm.ks {
+			vf.Assume(o != nk)
+		}
+		built.SetValue(nk, nv)
+		checkMap("source-unaffected-by-updates-of-the-built-map", kit, src, sm)
+		built.RemoveValue(nk)
+		src.SetValue(nk, nv)
+		if n > 0 {
+			src.RemoveValue(sm.ks[0])
+		}
+		checkMap("built-map-unaffected-by-updates-of-the-source", kit, built, sm)
 	}
 	vf.BudgetReset()
 	vf.Reach("end")
